@@ -124,7 +124,10 @@ func genCase(t *rapid.T) Case {
 		}
 	}
 	if nr > 0 && rapid.IntRange(0, 3).Draw(t, "corrupt?") == 0 {
-		c.Corrupt = rapid.SampledFrom([]string{"field-count", "field-count", "field-length", "negative-length", "truncated", "signature"}).Draw(t, "corruption")
+		c.Corrupt = rapid.SampledFrom([]string{"field-count", "field-count", "field-length", "negative-length", "wrong-width", "wrong-width", "truncated", "signature"}).Draw(t, "corruption")
+		if c.Corrupt == "wrong-width" && FixedWidth[c.Cols[0].T] == 0 {
+			c.Corrupt = "field-length"
+		}
 		c.At = rapid.IntRange(0, nr-1).Draw(t, "at")
 		switch c.Corrupt {
 		case "field-count":
@@ -132,9 +135,12 @@ func genCase(t *rapid.T) Case {
 			if c.Count == nc {
 				c.Count = nc + 1
 			}
-		case "field-length", "negative-length":
+		case "field-length", "negative-length", "wrong-width":
 			// needs a non-NULL first field
 			c.Rows[c.At][0] = gen.Val(c.Cols[0].T, 0, false).Draw(t, "non-null")
+			if c.Corrupt == "wrong-width" {
+				c.Count = rapid.SampledFrom([]int{0, 1, 4, FixedWidth[c.Cols[0].T]}).Draw(t, "extra-bytes")
+			}
 		}
 	}
 	return c
